@@ -121,7 +121,8 @@ func (t RouteTable) String() string {
 
 func (t RouteTable) Equal(o RouteTable) bool { return t.String() == o.String() }
 
-var bgpPrefixes = []string{"10.20.0.1/32", "10.20.0.2/32", "10.20.0.0/24", "10.30.0.1/32", "fc00:20::1/128", "fc00:20::/64"}
+// two pairs share a network address and differ only in length
+var bgpPrefixes = []string{"10.20.0.1/32", "10.20.0.2/32", "10.20.0.0/24", "10.20.0.0/25", "10.30.0.1/32", "fc00:20::1/128", "fc00:20::/64", "fc00:20::/48"}
 var bgpComms = []string{"65000:1", "65000:2", "100:200", "large:1:2:3", "large:4:5:6"}
 
 // GenBGPSessions draws 1..5 sessions that satisfy what the configuration layer
